@@ -126,6 +126,10 @@ class Deadlock(Exception):
     pass
 
 
+class WouldBlock(Exception):
+    """An atomic observer op met a lock held by a parked task."""
+
+
 class StepLimit(Exception):
     pass
 
@@ -145,6 +149,7 @@ class Task:
         self.crash_pending = False
         self.thread: threading.Thread | None = None
         self.steps = 0
+        self.access_events = 0
         self.prio = 0
         self._parked = threading.Event()
 
@@ -201,6 +206,36 @@ class PCTPolicy(Policy):
         return best
 
 
+class PCTAccessPolicy(Policy):
+    """PCT whose change points are tied to a task's n-th *shared-state
+    access line* instead of a global step number: (task index, n) pairs.
+    Such a point keeps its meaning when the rest of the schedule moves."""
+
+    def __init__(self, prios: list[int], points: list) -> None:
+        self.prios = list(prios)
+        self.points = {(int(t), int(n)) for t, n in points}
+        self._low = -1
+        self.index: dict = {}
+
+    def assign(self, tasks):
+        for i, t in enumerate(tasks):
+            t.prio = self.prios[i % len(self.prios)] if self.prios else 0
+            self.index[t] = i
+        self.sched = tasks[0].sched if tasks else None
+
+    def pick(self, step, label, cur, runnable):
+        if cur is not None and self.sched is not None and \
+                self.sched.last_access and \
+                (self.index.get(cur), cur.access_events) in self.points:
+            cur.prio = self._low
+            self._low -= 1
+        best = runnable[0]
+        for t in runnable[1:]:
+            if t.prio > best.prio:
+                best = t
+        return best
+
+
 class RandomPolicy(Policy):
     def __init__(self, seed: int, p: float) -> None:
         self.r = random.Random(seed)
@@ -239,6 +274,8 @@ def make_policy(spec: dict) -> Policy:
         return FifoPolicy()
     if kind == "pct":
         return PCTPolicy(spec.get("prios", [0]), spec.get("changes", []))
+    if kind == "pctacc":
+        return PCTAccessPolicy(spec.get("prios", [0]), spec.get("points", []))
     if kind == "random":
         return RandomPolicy(spec.get("seed", 0), spec.get("p", 0.05))
     if kind == "script":
@@ -268,6 +305,8 @@ class Scheduler:
         self.on_event = on_event      # callable(task, label) -> None, may raise
         self.active = False
         self.interesting_switches = 0
+        self.last_access = False
+        self.atomic = False          # True while an observer op runs inline
         self.on_switch = None        # callable(prev_task|None, next_task|None)
 
     # -- construction ------------------------------------------------------
@@ -377,15 +416,20 @@ class Scheduler:
             if me.abort:
                 raise SimAbort()
 
-    def yield_point(self, label: str, interesting: bool = False) -> None:
-        """Called by task threads at every event."""
+    def yield_point(self, label: str, interesting: bool = False,
+                    access: bool = False) -> None:
+        """Called by task threads at every event.  ``access``: the event
+        is a source line that touches state shared between tasks."""
         me = self.current()
-        if me is None or not self.active:
+        if me is None or not self.active or self.atomic:
             return
         if me.abort:
             raise SimAbort()
         self.step += 1
         me.steps += 1
+        if access:
+            me.access_events += 1
+        self.last_access = access
         self.log.add("ev", self.step, me.name, label)
         if self.step > self.max_steps:
             self.failure = StepLimit(f"more than {self.max_steps} events")
@@ -454,6 +498,8 @@ class SimRLock:
             return True
         if getattr(me.proc, "dead", False):
             raise SimCrash()
+        if sched.atomic and self.owner is not None and self.owner is not me:
+            raise WouldBlock(self.name)
         sched.yield_point("lock:acquire:" + self.name, interesting=True)
         while self.owner is not None and self.owner is not me:
             self.contended += 1
